@@ -92,3 +92,44 @@ Proof.
   assert (H3 : count_occ edge_dec (added_edges c r) e = 1%nat) by (apply NoDup_count_occ'; assumption).
   lia.
 Qed.
+
+(* ------------------------------------------------------------ what a "side" is: consecutive vertices, cyclically
+   (pins the generated index formula side_a / side_b) *)
+Definition rot1 (f : list Z) : list Z := match f with [] => [] | a :: t => t ++ [a] end.
+Definition cyc_pairs (f : list Z) : list (Z * Z) := combine f (rot1 f).
+
+Lemma rot1_length f : length (rot1 f) = length f.
+Proof. destruct f; cbn; [reflexivity|]. rewrite app_length. cbn. lia. Qed.
+
+Lemma rot1_nth f k : (k < length f)%nat -> nth k (rot1 f) 0 = znth f ((Z.of_nat k + 1) mod zlen f) 0.
+Proof.
+  destruct f as [|a t]; cbn [length]; [lia|]. intros Hk. unfold rot1, znth, zlen. cbn [length].
+  destruct (Nat.eq_dec (S k) (S (length t))) as [E|E].
+  - replace ((Z.of_nat k + 1) mod Z.of_nat (S (length t))) with 0.
+    + cbn. rewrite app_nth2 by lia. replace (k - length t)%nat with 0%nat by lia. reflexivity.
+    + replace (Z.of_nat k + 1) with (Z.of_nat (S (length t))) by lia. now rewrite Z.mod_same by lia.
+  - rewrite Z.mod_small by lia.
+    destruct (Z.of_nat k + 1 <? 0) eqn:L; [lia|].
+    replace (Z.to_nat (Z.of_nat k + 1)) with (S k) by lia. cbn. rewrite app_nth1 by lia. reflexivity.
+Qed.
+
+Lemma nth_zrange n k : (k < Z.to_nat n)%nat -> nth k (zrange n) 0 = Z.of_nat k.
+Proof.
+  intros H. unfold zrange. change 0 with (Z.of_nat 0). rewrite map_nth. f_equal. rewrite seq_nth by assumption. lia.
+Qed.
+
+Theorem face_sides_spec f : face_sides f = map (fun ab => kedge2 (fst ab) (snd ab)) (cyc_pairs f).
+Proof.
+  assert (Hn : Z.to_nat (zlen f) = length f) by (unfold zlen; lia).
+  apply (nth_ext _ _ (0, 0) (0, 0)).
+  - unfold face_sides, cyc_pairs. rewrite !map_length, zrange_length, combine_length, rot1_length. lia.
+  - intros k Hk. unfold face_sides in *. rewrite map_length, zrange_length, Hn in Hk.
+    set (g := fun i => kedge2 (znth f (side_a i (zlen f)) 0) (znth f (side_b i (zlen f)) 0)).
+    set (h := fun ab : Z * Z => kedge2 (fst ab) (snd ab)).
+    rewrite (nth_indep (map g _) (0, 0) (g 0)) by (rewrite map_length, zrange_length; lia).
+    rewrite map_nth, nth_zrange by lia.
+    rewrite (nth_indep (map h _) (0, 0) (h (0, 0))) by (unfold cyc_pairs; rewrite map_length, combine_length, rot1_length; lia).
+    rewrite map_nth. unfold cyc_pairs. rewrite combine_nth by (now rewrite rot1_length).
+    unfold g, h, side_a, side_b. cbn [fst snd]. rewrite rot1_nth by assumption. f_equal.
+    unfold znth. destruct (Z.of_nat k <? 0) eqn:L; [lia|]. now rewrite Nat2Z.id.
+Qed.
